@@ -20,6 +20,12 @@ def replay_with(f, post=None, check_imports=True):
             changes = refops.perform(proj, op)
             if changes is not None:
                 proj.do(changes)
+        except rex.ModuleSyntaxError as e:
+            from oracles import runprog
+
+            if runprog.compiles(files) is None:
+                return dict(reproduced=True, signature="%s:%s:%s:generated_code_does_not_parse:%s" % (prop, w["skeleton"], op["api"], w.get("partition", "")), detail="%s on %r (a project that parses) raised ModuleSyntaxError: %s" % (op, files, e))
+            return dict(reproduced=False, signature="", detail="the project itself does not parse")
         except rex.RopeError as e:
             return dict(reproduced=False, signature="", detail="refused: %s" % e)
         except Exception as e:
